@@ -40,7 +40,40 @@ fn h_load_one<const N: usize, S: Src>(s: &mut S) {
     s.reach();
 }
 
+/// boundary of the saturated length field: a path of exactly L bytes (L around 4095; content concrete, because CBMC cannot carry
+/// 4 KiB of symbolic path) with symbolic stat words, id, stage/assume-valid bits and (EXT) extended flags, followed by the
+/// start of a next entry. The decoded path must be those L bytes and the entry must end at align8(62 + ext + L + 1).
+fn h_load_one_long<const L: usize, const EXT: bool, const N: usize, S: Src>(s: &mut S) {
+    let mut data = [0u8; N];
+    let head: [u8; 60] = s.bytes();
+    let mut i = 0;
+    while i < 60 { data[i] = head[i]; i += 1; }
+    let hi = s.u8();
+    let len_field: u16 = if L >= 0xfff { 0xfff } else { L as u16 };
+    let flags_word: u16 = (((hi & 0xb0) as u16) << 8) | if EXT { 0x4000 } else { 0 } | len_field;
+    data[60] = (flags_word >> 8) as u8; data[61] = flags_word as u8;
+    let ext = if EXT { 2 } else { 0 };
+    if EXT { let x = s.u8(); data[62] = x & 0x60; data[63] = 0; }
+    i = 0;
+    while i < L { data[62 + ext + i] = b'a' + (i % 7) as u8; i += 1; }
+    let entry_len = (62 + ext + L + 8) & !7;
+    // bytes after the entry: the beginning of a next entry (non-zero, so that skipping too little or too much is visible)
+    i = entry_len;
+    while i < N { data[i] = 0x55; i += 1; }
+    let mut backing: Vec<u8> = Vec::with_capacity(L + 8);
+    let (e, rest) = load_one(&data[..], &mut backing, 20, false, None).expect("a complete entry decodes");
+    assert!(e.path.end - e.path.start == L, "the path is exactly the L bytes before the terminating NUL");
+    assert!(N - rest.len() == entry_len, "the entry ends at align8(62 + ext + len + 1)");
+    assert!(backing[e.path.start] == b'a' && backing[e.path.end - 1] == b'a' + ((L - 1) % 7) as u8, "first and last path byte");
+    s.reach();
+}
+
 harnesses! {
+    #[kani::proof] #[kani::unwind(4110)] load_one_long_4094 => h_load_one_long::<4094, false, 4168, _>;
+    #[kani::proof] #[kani::unwind(4110)] load_one_long_4095 => h_load_one_long::<4095, false, 4168, _>;
+    #[kani::proof] #[kani::unwind(4110)] load_one_long_4095_ext => h_load_one_long::<4095, true, 4176, _>;
+    #[kani::proof] #[kani::unwind(4110)] load_one_long_4096 => h_load_one_long::<4096, false, 4176, _>;
+    #[kani::proof] #[kani::unwind(4110)] load_one_long_4100_ext => h_load_one_long::<4100, true, 4176, _>;
     #[kani::proof] #[kani::unwind(22)] load_one_63 => h_load_one::<63, _>;
     #[kani::proof] #[kani::unwind(22)] load_one_64 => h_load_one::<64, _>;
     #[kani::proof] #[kani::unwind(22)] load_one_67 => h_load_one::<67, _>;
